@@ -1597,6 +1597,20 @@ impl Builder {
     }
 }
 
+// Verification hooks: read-only views of internal state, see tree_store/page_store/verif.rs
+#[cfg(redb_verif)]
+impl Database {
+    pub fn verif_snapshot(&self) -> crate::verif::Snapshot {
+        let mut snapshot = self.mem.verif_snapshot();
+        snapshot.live_read_transactions = self.transaction_tracker.verif_live_reads();
+        snapshot
+    }
+
+    pub fn verif_peek_page(&self, page: crate::verif::PageId) -> Result<alloc::vec::Vec<u8>> {
+        self.mem.verif_peek_page(page)
+    }
+}
+
 impl core::fmt::Debug for Database {
     fn fmt(&self, f: &mut Formatter<'_>) -> core::fmt::Result {
         f.debug_struct("Database").finish()
